@@ -568,6 +568,15 @@ def general_program(draw, cfg, max_steps=30, extra=(), disable=()):
                 feats.add('origin')
                 feats.add('zone')
                 local_defined = set()
+        elif choice == 'orgzone-outside' and zones:
+            # an origin relative to a zone that lands before its start or behind its end, and a byte placed from there
+            zn = d(st.sampled_from(zones))
+            z = b.lay.zones[zn]
+            k = d(st.integers(1, 4))
+            off = ['bin', '-', ['num', 0, 'dec'], ['num', k, 'dec']] if d(st.booleans()) else b.lit(z[1] - z[0] + k)
+            b.add({'t': 'org', 'e': off, 'zone': zn})
+            b.add({'t': 'data', 'd': '.byte', 'vals': [['num', 0xB1, 'hex$']]})
+            feats.add('byte-after-origin-outside-its-zone')
         elif choice == 'memzone' and zones:
             zn = d(st.sampled_from(zones + ['GLOBAL']))
             b.add({'t': 'memzone', 'zone': zn})
